@@ -1,3 +1,5 @@
+#[cfg(flounder_verif)]
+use crate::verif_seam::std_shim as std;
 use crate::board::Board;
 use crate::move_gen::MoveGenerator;
 use crate::pieces::Color;
